@@ -52,6 +52,10 @@ func interp{suf}(t *testing.T, rt *scnlib.RecT, steps []scnlib.Step) {{
 		case "skip":
 			scnlib.DoSkip(rt, st.Kind)
 		case "sub":
+			if st.Suite {{
+				runSuite(t, st)
+				continue
+			}}
 			t.Run(st.Name, func(t *testing.T) {{
 				if st.Parallel {{
 					t.Parallel()
@@ -136,6 +140,71 @@ func helperNonTest(rt *scnlib.RecT, st scnlib.Step, depth int) {{
 }}
 '''
 
+SUITE = '''package {pkg}
+
+import (
+	"testing"
+
+	"scnmod/scnlib"
+
+	"github.com/gkampitakis/go-snaps/snaps"
+)
+
+// runSuite is a shared "conformance suite": the subtest function is declared in this NON-test file, so the goroutine of the
+// subtest has no *_test.go frame at all (testing.tRunner -> this closure -> helpers -> Match*).
+func runSuite(t *testing.T, st scnlib.Step) {{
+	t.Run(st.Name, func(t *testing.T) {{
+		rt := scnlib.Wrap(t)
+		for _, c := range st.Steps {{
+			if c.Op != "call" {{
+				continue
+			}}
+			switch c.Shape {{
+			case "helper_nontest":
+				helperNonTest(rt, c, c.Depth)
+			case "helper_pkg":
+				scnlib.DoCallDepth(rt, c, c.Depth)
+			default:
+				suiteDirect(rt, c)
+			}}
+		}}
+	}})
+}}
+
+// suiteDirect makes the Match* call from this non-test file.
+func suiteDirect(rt *scnlib.RecT, st scnlib.Step) {{
+	if st.Cfg.Default {{
+		switch st.API {{
+		case "snap":
+			snaps.MatchSnapshot(rt, st.Value)
+		case "json":
+			snaps.MatchJSON(rt, st.Value)
+		case "yaml":
+			snaps.MatchYAML(rt, st.Value)
+		case "ssnap":
+			snaps.MatchStandaloneSnapshot(rt, st.Value)
+		case "sjson":
+			snaps.MatchStandaloneJSON(rt, st.Value)
+		}}
+	}} else {{
+		c := scnlib.BuildConfig(st.Cfg)
+		switch st.API {{
+		case "snap":
+			c.MatchSnapshot(rt, st.Value)
+		case "json":
+			c.MatchJSON(rt, st.Value)
+		case "yaml":
+			c.MatchYAML(rt, st.Value)
+		case "ssnap":
+			c.MatchStandaloneSnapshot(rt, st.Value)
+		case "sjson":
+			c.MatchStandaloneJSON(rt, st.Value)
+		}}
+	}}
+	rt.Report(st)
+}}
+'''
+
 MAIN = '''package {pkg}
 
 import (
@@ -175,6 +244,8 @@ def write_scn(dst, repo):
                 f.write(TEST_FILE.format(pkg=pkg, suf=suf, tests=tsrc, extra=EXTRA_FUNCS.get(fname, "")))
         with open(os.path.join(d, "helpers.go"), "w") as f:
             f.write(HELPERS.format(pkg=pkg))
+        with open(os.path.join(d, "suite.go"), "w") as f:
+            f.write(SUITE.format(pkg=pkg))
         with open(os.path.join(d, "main_test.go"), "w") as f:
             f.write(MAIN.format(pkg=pkg))
     return pkgs
